@@ -42,8 +42,33 @@ NEEDS = {
  "C19-2": ("UTF-8 flag test off by one (c > U+0080)", "name whose only non-ASCII character is U+0080"),
  "C20-1": ("reader position cached in the shared part to skip a seek", "handle A finishes entry k, handle B then opens entry k+1 (single thread alternation or threads)"),
  "C20-2": ("data_start published half-computed and reused by a fast path", "two threads racing in find_content on the same entry"),
+ "C01-3": ("Drop skips finalize when no entry was added", "zero entries AND completion by drop (comment on an entry-less archive lost, 0 bytes written)"),
+ "C01-4": ("add_directory only recognises '/' as an existing trailing separator", "directory name ending in a backslash"),
+ "C02-3": ("central-only extra-data mode not reset (early return)", "an entry through the central-only path, then a later non-stored entry via start_file_with_extra_data ... end_extra_data"),
+ "C02-4": ("end record takes the comment (mem::take)", "new_append + new end records shorter than the old stream end + non-empty new comment: second pass writes an empty comment"),
+ "C03-3": ("central header positions computed from decoded comment length", "non-ASCII (CP437) file comment on a non-last entry; later entries' central_header_start() wrong"),
+ "C03-4": ("end-of-central-directory search window 22 bytes too short", "comment (+ garbage) of 65514..65535 bytes"),
+ "C04-3": ("AE-1 treated like AE-2 for the CRC", "AE-1 entry whose declared CRC is damaged"),
+ "C04-4": ("entries declaring size 0 bypass decoder and CRC check", "empty entry / directory with a damaged CRC, or a zeroed size field with data present"),
+ "C05-3": ("method-99 rejection only without AES info", "AES extra field naming method 99 again, correct password, entry actually read"),
+ "C05-4": ("new_append pre-allocates the declared entry count", "ZIP64 end record with a lying count opened for append"),
+ "C06-3": ("mangled_name short-cuts through enclosed_name", "relative name with interior '..' or leading '.' and no backslash/NUL"),
+ "C06-4": ("CurDir counted as a level of depth", "name starting './' with one more '..' than normal components"),
+ "C07-3": ("existing directory skips the permission block", "directory entry listed after an entry inside it, mode other than the default"),
+ "C07-4": ("mode 0 used as 'no mode' sentinel in the streaming extractor", "entry whose recorded permission bits are all zero"),
+ "C08-3": ("end_extra_data forgets the 20-byte ZIP64 block in the local extra length", "large_file(true) with start_file_with_extra_data / start_file_aligned"),
+ "C08-4": ("raw copy derives large_file from the compressed size only", "raw copy of an entry whose size exceeds 4 GiB while its compressed size does not"),
+ "C09-3": ("archive comment read with a single read()", "short underlying read inside the comment while the end record is parsed"),
+ "C09-4": ("local extra data written with write instead of write_all", "short sink write during exactly that write of an entry with extra data / alignment padding"),
+ "C10-3": ("ZIP64 block read compressed-size first", "streamed large_file entry with a compressing method (both sizes in the local ZIP64 block, different)"),
+ "C10-4": ("local header not patched when no bytes were written", "empty entry with a compressing method (2/14/9 compressed bytes)"),
 }
 HISTORY = {
+ "C01-4": "missed at first (no name in the alphabet ended in a separator); C01's name alphabet gained 'w\\' and 's/'",
+ "C02-4": "missed by C02 at first (its append part never changed the comment; C13 caught it); C02's append part now keeps / shortens / lengthens the comment",
+ "C04-4": "missed at first (no seed had an empty entry, size fields were not damaged); C04 gained the 'writer-empties' seed and size-field damage positions",
+ "C08-3": "missed by C08 at first (C02/C12/C17 caught it); C08 now runs 157 programs with the large_file flag on small entries through the strict parser and both readers",
+ "C08-4": "missed at first (the ZIP64-sized raw copy was a stored entry: equal sizes); C08 now raw-copies a compressed entry claiming 2^32-1 .. 2^40 bytes",
  "C07-2": "missed at first (modes compared & 0o777); C07 now sweeps all 4096 twelve-bit modes and compares & 0o7777",
  "C03-1": "missed at first (comment + garbage <= 1500 bytes); C03 now has the window-edge part (sums 65 513..65 535)",
  "C10-2": "missed at first (visitor only over a plain cursor); C10 now runs the visitor over 1-byte, 3-byte and every single-cut stream",
